@@ -103,11 +103,14 @@ def handle (op real : String) : Verdict := Id.run do
   let realToks := field "toks="
   let realIdem := field "idem="
   let modelToks := ",".intercalate ((tm.render []).map renderTok)
-  let sig := s!"{if tm.nonIdem then "nonidem" else "plain"}-{realIdem}"
+  let sig := s!"{if tm.nonIdem then "nonidem" else if tm.plain then "plain" else "other"}-{realIdem}"
   if realIdem == "panic" then return { kind := "spec", sig, key := "C06:classifier-panic", detail := s!"{op}" }
   -- the grammar theorem's claim, on the real verdict
   if realIdem.startsWith "1" && tm.nonIdem then
     return { kind := "spec", sig, key := "C06:unsound-term", detail := s!"a term holding a now() / uuid() call was classified idempotent: {op} -> {real}" }
+  -- plain_term_accepted / plain_insert_accepted, on the real verdict
+  if tm.plain && realIdem != "1" then
+    return { kind := "spec", sig, key := "C06:plain-rejected", detail := s!"an INSERT of a plain value was not classified idempotent: {op} -> {real}" }
   -- the rendering of Model/CqlAst against the real scanner
   if modelToks != realToks then return { kind := "diff", sig, key := "render", detail := s!"tokens {modelToks}" }
   -- the model's classifier on the rendered INSERT against the real classifier on the text
